@@ -26,6 +26,8 @@ def relevant_axioms(axioms, terms):
     """axioms whose trigger terms occur (transitively) in the given terms"""
     ids = T.subterm_ids(terms)
     chosen = []
+    if T.PI.get_id() in ids:
+        chosen.append(z3.And(T.PI > z3.RealVal("3.14159265"), T.PI < z3.RealVal("3.14159266")))
     remaining = list(axioms)
     changed = True
     while changed and remaining:
